@@ -91,6 +91,16 @@ def delivered (ρ : TopicMap → TopicMap) (a : Asg) (ids ts : List Nat) : Asg :
   fun t id => (mapGet t (received ρ (mapOf a ids ts) id)).getD []
 
 
+/-- `makeAssignments(assignments, offsets)` (partition ids only): for every topic of the member's OWN configuration, in
+listing order, `topicAssignments[topic] = make(…)` and then one entry per received partition of that topic — a topic
+that was received but is not configured never reaches `Generation.Assignments` -/
+def makeAssignments (topics : List Nat) (recv : TopicMap) : TopicMap :=
+  topics.foldl (fun acc t => mapInsert t ((mapGet t recv).getD []) acc) []
+
+/-- `Generation.Assignments` of a member configured with `topics`, as an assignment function -/
+def generationView (ρ : TopicMap → TopicMap) (A : Assignments) (id : Nat) (topics : List Nat) (t : Nat) : List Int :=
+  (mapGet t (makeAssignments topics (received ρ A id))).getD []
+
 /-! ### which partitions the leader's balancer is given -/
 
 def insertNat (x : Nat) : List Nat → List Nat
